@@ -785,8 +785,8 @@ impl Prop for P {
             // the same programs on 2-6 real, unscheduled OS threads (race windows without a yield point)
             v.push(Plan::new(
                 &format!("{name}_free"),
-                tier.pick(70, 3000),
-                tier.pick(6, 200),
+                tier.pick(300, 6000),
+                tier.pick(10, 300),
                 (any::<u8>(), 0u8..4, proptest::collection::vec(proptest::collection::vec(op(), 2..=6), 2..=6))
                     .prop_map(move |(knob, prefreed, threads)| Case { pool: pi, knob, prefreed, threads, schedule: Sch::Free { reps: 2, loops: 1500 } }),
             ));
